@@ -1,5 +1,6 @@
 import CuqiVerif.Model.Proto
 import CuqiVerif.Model.C02
+import CuqiVerif.Model.C02_chain
 open CuqiVerif CuqiVerif.Proto CuqiVerif.C02
 
 /-
@@ -11,6 +12,17 @@ open CuqiVerif CuqiVerif.Proto CuqiVerif.C02
     prop  isDistribution isSymmetric                       -> ok | err
     acc   K ell ratio tstar                                -> 0 | 1
     min0  r                                                -> XVal
+  session-3 ops (the code around the transitions; `Model/C02_chain.lean`)
+    pcnx  K cache scale ell tstar                          -> defined | nanprop acc cache'
+    tune  K dim T i zetaInv logLam accRows                 -> logLam' logScale'          | err-cert
+    tint  prod                                             -> max(int(prod), 1)
+    sarg  adapt(0|1) scale|none                            -> scale | err
+    leg   K int|float width dim S|A N Nb prodNa x0 logd0 grad0 scale0 logLam0 zetaInvs newScales inputs
+                                                           -> points logds grads scales accRows trace nUpd | err | err-leaf | err-cert
+    exp   K int|float width dim x0 logd0 grad0 scale0 logLam0 zetaInvs newScales phases
+                                                           -> x logd grad scale logLam accRows samples trace | err-leaf | err-cert
+      inputs : transitions `z~ells~tstars~gstar~aux` joined by `|` (`_` = none)
+      phases : `S:inputs`, `W:tune_freq*Nb:inputs`, `R:scale`, `L` joined by `#`
   The recorded target values (`tstar`, `gstar`, `tstars`) are what the implementation's target
   returned at its proposal(s); the model is the bookkeeping around them.
 -/
@@ -38,7 +50,128 @@ def parseB : String → Option Bool
 def fmtBits (bs : List Bool) : String :=
   if bs.isEmpty then "_" else ",".intercalate (bs.map fmtBool)
 
+def parseInp (s : String) : Option Inp :=
+  match s.splitOn "~" with
+  | [z, ells, ts, gs, aux] => do
+    let z ← parseVec z
+    let ells ← parseXs ells
+    let ts ← parseXs ts
+    let gs ← parseVec gs
+    let aux ← parseRat aux
+    some { z := z, ells := ells, ts := ts, gs := gs, aux := aux }
+  | _ => none
+
+def parseInps (s : String) : Option (List Inp) :=
+  if s = "_" then some [] else (s.splitOn "|").mapM parseInp
+
+def parseBitRows (s : String) : Option (List (List Bool)) :=
+  if s = "_" then some [] else (s.splitOn ";").mapM (fun r => (r.splitOn ",").mapM parseB)
+
+def fmtXs (v : List XVal) : String := if v.isEmpty then "_" else ",".intercalate (v.map fmtX)
+
+def fmtXRows (m : List (List XVal)) : String := if m.isEmpty then "_" else ";".intercalate (m.map fmtXs)
+
+def fmtBitRows (m : List (List Bool)) : String := if m.isEmpty then "_" else ";".intercalate (m.map fmtBits)
+
+def parseDt (dt : String) : Option Bool :=
+  if dt = "int" then some true else if dt = "float" then some false else none
+
+/-- shape of one transition's inputs for kernel `k` in dimension `dim` -/
+def inpOk (k : Kernel) (dim : Nat) (i : Inp) : Bool :=
+  let w := if k = .expCWMH ∨ k = .legCWMH then dim else 1
+  i.z.length == dim && i.ells.length == w && i.ts.length == w &&
+    (if k = .expMALA ∨ k = .legMALA then i.gs.length == dim else true)
+
+def zetasOk (zs : Vec) : Bool :=
+  (zs.zipIdx.all (fun (z, n) => sqrtCert z ((n : Rat) + 1)))
+
+def parsePhase (s : String) (zs : Vec) (ns : List Vec) : Option (Phase Inp) :=
+  match s.splitOn ":" with
+  | ["S", inps] => Phase.sample <$> parseInps inps
+  | ["W", prod, inps] => do
+    let p ← parseRat prod          -- the float product tune_freq*Nb; tune_interval = max(int(·), 1) is computed by the model
+    let inps ← parseInps inps
+    some (Phase.warmup (tuneInterval p) (fun n => zs.getD n 0) (fun n => ns.getD n []) inps)
+  | ["R", v] => Phase.rescale <$> parseVec v
+  | ["L"] => some Phase.reload
+  | _ => none
+
+def phaseInputs : Phase Inp → List Inp
+  | .sample i => i
+  | .warmup _ _ _ i => i
+  | _ => []
+
 def step : List String → String
+  | ["pcnx", k, cache, scale, ell, tstar] =>
+    match parseK k, parseX cache, parseRat scale, parseX ell, parseX tstar with
+    | some k, some cache, some s, some ell, some t =>
+      if k = .expPCN ∨ k = .legPCN then
+        if pcnContractionDefined s then "defined"
+        else let r := pcnNanStep k cache t ell; s!"nanprop {fmtBool r.2} {fmtX r.1}"
+      else "bad-op"
+    | _, _, _, _, _ => "bad-op"
+  | ["tune", k, dim, t, i, zi, lam, rows] =>
+    match parseK k, parseNat dim, parseNat t, parseNat i, parseRat zi, parseXs lam, parseBitRows rows with
+    | some k, some dim, some T, some i, some zi, some lam, some rows =>
+      if T = 0 ∨ dim = 0 ∨ k.tuner = .none then "bad-op"
+      else if !sqrtCert zi ((i : Rat) + 1) then "err-cert"
+      else
+        let lam' := tuneUpdate (k.tuner.star dim) (1 / zi) (k.window.cut rows T i) lam
+        s!"{fmtXs lam'} {fmtXs (lam'.map capLog)}"
+    | _, _, _, _, _, _, _ => "bad-op"
+  | ["tint", p] =>
+    match parseRat p with
+    | some p => toString (tuneInterval p)
+    | none => "bad-op"
+  | ["sarg", a, sc] =>
+    match parseB a, (if sc = "none" then some none else some <$> parseRat sc) with
+    | some a, some sc => match legScaleArg a sc with
+      | some v => fmtRat v
+      | none => "err"
+    | _, _ => "bad-op"
+  | ["leg", k, dt, width, dim, mode, n, nb, prodNa, x0, logd0, grad0, scale0, lam0, zs, ns, inps] =>
+    match parseK k, parseDt dt, parseNat width, parseNat dim, parseNat n, parseNat nb, parseRat prodNa, parseVec x0 with
+    | some k, some isInt, some width, some dim, some N, some Nb, some prodNa, some x0 =>
+      match parseX logd0, parseVec grad0, parseVec scale0, parseXs lam0, parseVec zs, parseMat ns, parseInps inps with
+      | some logd0, some grad0, some scale0, some lam0, some zs, some ns, some inps =>
+        if !(k = .legMH ∨ k = .legPCN ∨ k = .legMALA ∨ k = .legCWMH) ∨ x0.length ≠ dim ∨ dim = 0
+            ∨ !(inps.all (inpOk k dim)) ∨ lam0.length ≠ width ∨ (mode ≠ "S" ∧ mode ≠ "A") then "bad-op"
+        else if !zetasOk zs then "err-cert"
+        else
+          let st0 : St := { x := x0, logd := logd0, grad := grad0, scale := scale0 }
+          let stp := stepLeaf k isInt
+          let fmt (chain : List St) (acc : List (List Bool)) (trace : List (List XVal)) (nUpd : Nat) : String :=
+            s!"{fmtMat (chain.map (·.x))} {fmtXs (chain.map (·.logd))} {fmtMat (chain.map (·.grad))} {fmtMat (chain.map (·.scale))} {fmtBitRows acc} {fmtXRows trace} {nUpd}"
+          if mode = "S" then
+            match legSample width stp st0 N Nb inps with
+            | none => "err"
+            | some (chain, acc) => fmt chain acc [] 0
+          else
+            match legSampleAdapt k.tuner width dim stp (fun n => zs.getD n 0) (fun n => ns.getD n []) st0 lam0 N Nb prodNa inps with
+            | none => "err"
+            | some (chain, acc, L) =>
+              if L.nUpd > ns.length ∨ L.nUpd > zs.length then "err-leaf" else fmt chain acc L.trace L.nUpd
+      | _, _, _, _, _, _, _ => "bad-op"
+    | _, _, _, _, _, _, _, _ => "bad-op"
+  | ["exp", k, dt, width, dim, x0, logd0, grad0, scale0, lam0, zs, ns, phases] =>
+    match parseK k, parseDt dt, parseNat width, parseNat dim, parseVec x0, parseX logd0, parseVec grad0 with
+    | some k, some isInt, some width, some dim, some x0, some logd0, some grad0 =>
+      match parseVec scale0, parseXs lam0, parseVec zs, parseMat ns with
+      | some scale0, some lam0, some zs, some ns =>
+        match (if phases = "_" then some [] else (phases.splitOn "#").mapM (fun p => parsePhase p zs ns)) with
+        | some phs =>
+          if !(k = .expMH ∨ k = .expPCN ∨ k = .expMALA ∨ k = .expCWMH) ∨ x0.length ≠ dim ∨ dim = 0
+              ∨ !(phs.all (fun p => (phaseInputs p).all (inpOk k dim))) ∨ lam0.length ≠ width then "bad-op"
+          else if !zetasOk zs then "err-cert"
+          else
+            let st0 : St := { x := x0, logd := logd0, grad := grad0, scale := scale0 }
+            let s0 := smpInit width st0 lam0
+            let s := runSession k.tuner k.window dim (stepLeaf k isInt) s0 s0 phs
+            if s.nUpd > ns.length ∨ s.nUpd > zs.length then "err-leaf"
+            else s!"{fmtVec s.st.x} {fmtX s.st.logd} {fmtVec s.st.grad} {fmtVec s.st.scale} {fmtXs s.logLam} {fmtBitRows s.acc} {fmtMat s.samples} {fmtXRows s.trace}"
+        | none => "bad-op"
+      | _, _, _, _ => "bad-op"
+    | _, _, _, _, _, _, _ => "bad-op"
   | ["mh", k, x, logd, scale, xi, ell, tstar] =>
     match parseK k, parseVec x, parseX logd, parseRat scale, parseVec xi, parseX ell, parseX tstar with
     | some k, some x, some logd, some s, some xi, some ell, some t =>
